@@ -55,12 +55,18 @@ def scenario(name, dims, weights=(1, 2), max_resp=2, yvals=(), weighted=True,
 
 
 def dim_record(d):
+    der = {int(k): v for k, v in (d.get("derived") or {}).items()}
+    der_seq = "<<" + ", ".join(
+        "[is |-> %s, of |-> %s, at |-> %s, ref |-> %d]" % (
+            tla_value(p in der), tla_value(set((der.get(p) or {}).get("of", ()))),
+            tla_value((der.get(p) or {}).get("at", "none")), (der.get(p) or {}).get("ref", 0))
+        for p in range(1, d["n"] + 1)) + ">>"
     return ("[kind |-> %s, var |-> %s, n |-> %d, miss |-> %s, ids |-> %s, vals |-> %s, "
-            "date |-> %s, lrank |-> %s]" % (
+            "date |-> %s, lrank |-> %s, der |-> %s]" % (
                 tla_value(d["kind"]), tla_value(d["var"]), d["n"],
                 tla_value(set(d["miss"])), tla_value(d["ids"]),
                 tla_value(d["vals"]), tla_value(bool(d["date"])),
-                tla_value(d.get("lrank") or list(range(1, d["n"] + 1)))))
+                tla_value(d.get("lrank") or list(range(1, d["n"] + 1))), der_seq))
 
 
 def filter_record(f):
@@ -129,7 +135,7 @@ def n_profiles(scn):
         if k == "cat":
             n *= d["n"]
         elif k == "mr":
-            n *= 3 ** d["n"]
+            n *= 3 ** (d["n"] - len(d.get("derived") or {}))
         elif k == "numarr":
             n *= ny ** d["n"]
         else:
